@@ -88,7 +88,7 @@ def build(seed: int, cfg: dict):
             add(b["text"], inp, out, m, b["id"], "sweep-wide")
     # twin-joined variants (program + renamed copy + statements joining both bodies): two equally good
     # candidates wherever a pass looks for "the" at-most-one / min-max / sum predicate of a body
-    for b in workload.load_twin() + workload.load_fat() + workload.load_twinagg():
+    for b in workload.load_twin() + workload.load_fat() + workload.load_twinagg() + workload.load_dir():
         ms = [workload.DEFAULT, workload.ALL][: cfg["wide_masks"]]
         while len(ms) < cfg["wide_masks"]:
             ms.append(rng.choice([1 << rng.randrange(9), workload.ALL ^ (1 << rng.randrange(9)), rng.randrange(512)]))
